@@ -1,7 +1,7 @@
 """R-WRAPPER-ORDER (C20), R-METAKEY (C11, C20)."""
 import re
 
-from .prog import (AnalysisBroken, key, strip, walk, const_value, enum_name, edpe_blocks, block_nodes)
+from .prog import (AnalysisBroken, key, strip, walk, const_value, enum_name, edpe_blocks, block_nodes, tok_dkey, resolve_key)
 
 CONTROL_KEYS = {"baseheaderlevel", "epubheaderlevel", "htmlheaderlevel", "xhtmlheaderlevel", "latexheaderlevel",
                 "odfheaderlevel", "language", "latexmode", "quoteslanguage"}
@@ -193,7 +193,7 @@ def r_wrapper_order(P, chk):
     # BLOCK_META emits nothing and does not descend
     for w, unit, fn in (("html", "html.c", "mmd_export_token_html"), ("latex", "latex.c", "mmd_export_token_latex")):
         g = P.func(fn, unit)
-        blocks = edpe_blocks(g, "t->type", tt["BLOCK_META"])
+        blocks = edpe_blocks(g, tok_dkey(g), tt["BLOCK_META"])
         from .rules_critic import _switch_block
         sw = g.nodes.get(g.cfg.blocks[_switch_block(g)].term)
         inside = {g.cfg.positions()[y["i"]][0] for y in walk(sw["c"][1]) if y.get("i") in g.cfg.positions()}
@@ -326,11 +326,11 @@ def r_metakey(P, chk):
     for fn in ("mmd_engine_metadata_keys", "mmd_engine_metavalue_for_key"):
         f = P.func(fn, "mmd.c")
         hm = [c for c in f.calls("mmd_engine_has_metadata")]
-        reads = [c for c in f.calls("stack_peek_index") if key(c["c"][1]).endswith("->metadata_stack")]
+        reads = [c for c in f.calls("stack_peek_index") if resolve_key(f, c["c"][1]).endswith("->metadata_stack")]
         okh = False
         for h in hm:
             for a in f.ancestors(h):
-                if a["k"] == "IfStmt" and "metadata_stack->size==0" in key(a["c"][0]).replace("(", "").replace(")", ""):
+                if a["k"] == "IfStmt" and "metadata_stack->size==0" in resolve_key(f, a["c"][0]).replace("(", "").replace(")", ""):
                     if all(f.cfg.dominates(a["c"][0]["i"], r["i"]) for r in reads):
                         okh = True
         chk.obligation(rid, "%s checks for metadata (mmd_engine_has_metadata when the stack is empty) before reading the stack" % fn,
